@@ -344,7 +344,8 @@ class Compiler:
             try:
                 with open_device(filepath, "wb") as f:
                     f.write(result)
-            except IOError as ex:
+            except (IOError, ValueError) as ex:
+                # ValueError: the path cannot name a file at all, e.g. contains '\0'
                 reports.error(
                     "io-error",
                     (ctx_start, ctx_end, f"Could not write to '{filepath}':\n{ex}")
